@@ -137,6 +137,13 @@ pub fn json_corruptions(file: &GameFile) -> Vec<Corruption> {
                 let nm = name.clone();
                 edit(&format!("outcome {} prob negative", name), vec!["game-error"], &move |n| n["chance"]["outcomes"][&nm]["prob"] = json!(-1.0));
             }
+            // every weight of the node negated: the normalised values would be positive again
+            edit("all probs negated", vec!["game-error"], &|n| {
+                for (_, out) in n["chance"]["outcomes"].as_object_mut().unwrap().iter_mut() {
+                    let w = out["prob"].as_f64().unwrap_or(1.0);
+                    out["prob"] = json!(-w);
+                }
+            });
         }
     }
     let text = &file.text;
@@ -354,6 +361,16 @@ pub fn run(ctx: &Ctx) -> i32 {
         ("chance node", "EFG 2 R \"by reference\" { \"one\" \"two\" }\np \"\" 1 1 \"r\" { \"a\" \"b\" } 1 \"fee\" { 1, 0 }\nc \"\" 1 \"k\" { \"o0\" 1/2 \"o1\" 1/2 } 1\nt \"\" 2 \"\" { 1, -1 }\nt \"\" 3 \"\" { -1, 1 }\nt \"\" 4 \"\" { 0, 0 }\n"),
         ("reference first", "EFG 2 R \"by reference\" { \"one\" \"two\" }\np \"\" 1 1 \"r\" { \"a\" \"b\" } 0\np \"\" 2 1 \"z\" { \"l\" \"r\" } 1\nt \"\" 2 \"\" { 1, -1 }\nt \"\" 3 \"\" { -1, 1 }\np \"\" 2 2 \"y\" { \"l\" \"r\" } 1 \"fee\" { 1, 0 }\np \"\" 1 2 \"s\" { \"u\" \"d\" } 1\nt \"\" 4 \"\" { 0, 0 }\nt \"\" 5 \"\" { 2, -2 }\nt \"\" 6 \"\" { 1, -1 }\n"),
     ];
+    // payoffs far from zero compared with their spread: the sums differ by half (and by a 250th of)
+    // player one's payoff range, a thousand (four) times what the reader tolerates
+    let offset = [
+        ("sum off by 1/2 at payoffs around 1000", "EFG 2 R \"offset\" { \"one\" \"two\" }\np \"\" 1 1 \"r\" { \"a\" \"b\" } 0\nt \"\" 1 \"\" { 1000, -1000 }\nt \"\" 2 \"\" { 1001, -1001.5 }\n"),
+        ("sum off by 1/250 at payoffs around 1000", "EFG 2 R \"offset\" { \"one\" \"two\" }\np \"\" 1 1 \"r\" { \"a\" \"b\" } 0\nt \"\" 1 \"\" { 1000, -1000 }\nt \"\" 2 \"\" { 1001, -1001.008 }\n"),
+        ("sum off by 1/2 at payoffs around -1000", "EFG 2 R \"offset\" { \"one\" \"two\" }\np \"\" 2 1 \"r\" { \"a\" \"b\" } 0\nt \"\" 1 \"\" { -1000, 1000 }\nt \"\" 2 \"\" { -1001, 1001.5 }\n"),
+    ];
+    for (what, text) in offset {
+        all.push(("offset".into(), Corruption { what: format!("not constant-sum: {}", what), text: text.to_string(), format: "efg", expect: vec!["constant-sum"], explicit_only: false }));
+    }
     for (what, text) in by_reference {
         all.push(("by-reference".into(), Corruption { what: format!("not constant-sum through an outcome referenced by number ({})", what), text: text.to_string(), format: "efg", expect: vec!["constant-sum"], explicit_only: false }));
     }
